@@ -21,6 +21,21 @@ type c08Case struct {
 	Kind string        `json:"kind"` // "prog" or "frag"
 	Spec *gen.ProgSpec `json:"spec,omitempty"`
 	Frag *c08FragSpec  `json:"frag,omitempty"`
+	// Tail: an extra box appended after the file: "", "mdat8" (empty mdat, 8-byte header), "mdat16" (empty mdat,
+	// 64-bit header), "free"
+	Tail string `json:"tail,omitempty"`
+}
+
+func c08Tail(kind string) []byte {
+	switch kind {
+	case "mdat8":
+		return []byte{0, 0, 0, 8, 'm', 'd', 'a', 't'}
+	case "mdat16":
+		return []byte{0, 0, 0, 1, 'm', 'd', 'a', 't', 0, 0, 0, 0, 0, 0, 0, 16}
+	case "free":
+		return []byte{0, 0, 0, 10, 'f', 'r', 'e', 'e', 1, 2}
+	}
+	return nil
 }
 
 type c08FragSpec struct {
@@ -263,7 +278,7 @@ func runC08(c *vf.Ctx) {
 		maxN = 9
 		c.SetBudget(8 * 60 * 1e9)
 	}
-	c.Rule = "generated progressive files: all chunkings (compositions) of N samples x {mdat before/after moov} x {32-bit, 64-bit mdat header} x {1,2 tracks, interleaved chunks} x lead-in 0/1, sample sizes 1..3; fragmented files with 1-2 fragments; for each file BOTH decode modes, then every (start,size>=1) range inside every mdat payload through ReadData and CopyData, every sample interval 1<=a<=b<=N through CopySampleData with work buffers {0,1,2,3,5,8,payload,payload+1}, Info/Size/positions of both trees, lazy mdat Encode/EncodeSW. A case = one file (distinct by construction); 'ranges' counts the individual range/interval comparisons."
+	c.Rule = "generated progressive files: all chunkings (compositions) of N samples x {mdat before/after moov} x {32-bit, 64-bit mdat header} x {1,2 tracks, interleaved chunks} x lead-in 0/1 x trailing box {none, empty mdat (8/16-byte header), free}, sample sizes 1..3; fragmented files with 1-2 fragments; for each file BOTH decode modes, then every (start,size>=1) range inside every mdat payload through ReadData and CopyData, every sample interval 1<=a<=b<=N through CopySampleData with work buffers {0,1,2,3,5,8,payload,payload+1}, Info/Size/positions of both trees, lazy mdat Encode/EncodeSW. A case = one file (distinct by construction); 'ranges' counts the individual range/interval comparisons."
 	c.Bound = fmt.Sprintf("N <= %d samples per video track", maxN)
 	specs := c08Specs(maxN)
 	var frags []*c08FragSpec
@@ -280,7 +295,10 @@ func runC08(c *vf.Ctx) {
 				vf.Harness("c08 gen: %v", err)
 			}
 			wbs := []int{0, 1, 2, 3, 5, 8, pf.PayloadLen, pf.PayloadLen + 1}
-			r = c08Check(c, &c08Case{Kind: "prog", Spec: sp}, pf.Bytes, pf, wbs)
+			for _, tail := range []string{"", "mdat8", "mdat16", "free"} {
+				b := append(append([]byte{}, pf.Bytes...), c08Tail(tail)...)
+				r += c08Check(c, &c08Case{Kind: "prog", Spec: sp, Tail: tail}, b, pf, wbs)
+			}
 		} else {
 			fs := frags[i-len(specs)]
 			r = c08Check(c, &c08Case{Kind: "frag", Frag: fs}, c08BuildFrag(fs), nil, nil)
@@ -308,7 +326,7 @@ func replayC08(c *vf.Ctx, detail json.RawMessage) {
 		if err != nil {
 			vf.Harness("gen: %v", err)
 		}
-		c08Check(c, &d.Case, pf.Bytes, pf, []int{0, 1, 2, 3, 5, 8, pf.PayloadLen, pf.PayloadLen + 1})
+		c08Check(c, &d.Case, append(append([]byte{}, pf.Bytes...), c08Tail(d.Case.Tail)...), pf, []int{0, 1, 2, 3, 5, 8, pf.PayloadLen, pf.PayloadLen + 1})
 	} else {
 		c08Check(c, &d.Case, c08BuildFrag(d.Case.Frag), nil, nil)
 	}
